@@ -23,9 +23,11 @@ package vm
 //@   property C15
 //@   ensures[int-cells] isint(a) && isint(b) ==> r == boolv(intof(a) == intof(b))
 //@   ensures[string-cells] isstr(a) && isstr(b) ==> r == boolv(strof(a) == strof(b))
-//@ func vm.less
+//@ func vm.less returns r
 //@   pure
 //@   panics maybe
+//@   property C18
+//@   ensures[int-cells] isint(a) && isint(b) ==> r == boolv(intof(a) < intof(b))
 //@ func vm.more
 //@   pure
 //@   panics maybe
